@@ -147,6 +147,7 @@ impl Property for C08 {
                     2 => prop::sample::select(vec![-1i8, 1]).prop_map(Corrupt::Length),
                     1 => any::<u16>().prop_map(Corrupt::DropChar),
                     1 => (0u8..58).prop_map(Corrupt::AppendChar),
+                    1 => (prop_oneof![6 => Just(-1i8), 1 => Just(-2i8), 2 => 1i8..=3], any::<u8>()).prop_map(|(k, s)| Corrupt::RawLen(k, s)),
                 ]).prop_map(|(seed, path, private, how)| Case::Corrupt { seed, path, private, how }),
             3 => (seed_strategy(), prop::collection::vec(index_strategy(), 0..3), any::<bool>(), 0u8..8, any::<u8>()).prop_map(|(seed, path, private, field, value)| Case::Reframed { seed, path, private, field, value }),
             1 => (seed_strategy(), prop::sample::select(vec!["m/x", "m/2147483648", "0/1", "", "x", "m/1/-1", "n/1", "m/4294967296", "m/1/a'", "m/2147483648'", "m/2147483648h", "m/0/4294967295'", "m/4294967295H", "m/4294967296'", "m/2147483647'/2147483648'"])).prop_map(|(seed, t)| Case::BadPath { seed, text: t.to_string() }),
